@@ -1,4 +1,4 @@
-//go:build verif
+//go:build verif && go1.25
 
 // C19 — the witness only ever cosigns a forward-moving, consistent history per log.
 //
@@ -745,6 +745,7 @@ func TestCheck(t *testing.T) {
 	// differential: every state reached by replay on a fresh instance must serve the
 	// same stored bytes as the reference (done in checkOp); additionally replay two
 	// different paths to the same state and compare rows
+	runWitnessConcurrent(t, r, cands)
 	r.Set("states", len(seen))
 	r.Set("transitions", transitions.Load())
 	r.Set("traces_validated_against_impl", transitions.Load()+validated.Load())
